@@ -183,7 +183,7 @@ func decodeInt64(buf nextByte) (ret int64, bytesRead uint64, err error) {
 			// fixme: can be optimized.
 			if bytesRead > maxVarintLen64 {
 				return 0, 0, errOverflow64
-			} else if unused := b & 0b00111110; bytesRead == maxVarintLen64 && ret < 0 && unused != 0b00111110 {
+			} else if unused := b & 0b01111110; bytesRead == maxVarintLen64 && ret < 0 && unused != 0b01111110 {
 				return 0, 0, errOverflow64
 			} else if bytesRead == maxVarintLen64 && ret >= 0 && unused != 0x00 {
 				return 0, 0, errOverflow64
